@@ -1007,7 +1007,7 @@ fn run_record(bin: &str, base: &Path, name: &str, rec: &Value, rng: &mut Rng, st
                 if step.get("reached").and_then(|x| x.as_bool()) == Some(true) {
                     st.mismatches += 1;
                     if st.first.len() < 200 {
-                        st.first.push(json!({"what": "the connection was closed before this step", "conn": ci, "step": si, "cfg": rec["cfg"], "conf": srv.conf_text, "rq": step["rq"], "exp": step["exp"]}));
+                        st.first.push(json!({"what": "the connection was closed before this step", "conn": ci, "step": si, "cfg": rec["cfg"], "conf": srv.conf_text, "op": step["op"], "ka": step["ka"], "rq": step["rq"], "exp": step["exp"]}));
                     }
                 }
                 steps_out.push(json!({"op": step["op"], "rq": step["rq"], "ka": step["ka"], "obs": {"cls": "skipped", "tgt": 0}, "pump": []}));
